@@ -315,7 +315,8 @@ def _run_family(family, tier, mode="th", max_runs=None, procs=16, only=None):
         scs = [s for s in scs if only in s.name]
     if max_runs is None:
         max_runs = 2500 if tier == "quick" else 40000
-    jobs = [(sc, i, max_runs if len(sc.threads) == 2 else min(max_runs, 8000))
+    # 3-thread scenarios are preemption-bounded; their budget is fixed (F13 needs ~4 000 runs)
+    jobs = [(sc, i, max_runs if len(sc.threads) == 2 else (5000 if tier == "quick" else 8000))
             for i, sc in enumerate(scs)]
     with multiprocessing.get_context("fork").Pool(min(procs, len(jobs))) as pool:
         results = pool.map(_explore, jobs, chunksize=1)
